@@ -226,7 +226,7 @@ int main(int argc, char** argv){
   int nslots,nbufs;
   if(fscanf(f,"%d %d",&nslots,&nbufs)!=2) return 91;
   std::vector<void*> slots(nslots);
-  for(int i=0;i<nslots;i++) slots[i]=aligned_alloc(16,64);
+  for(int i=0;i<nslots;i++){ slots[i]=aligned_alloc(16,64); memset(slots[i],0xA5,64); }   // objects are built in storage of arbitrary prior content
   std::vector<int> live(nslots,0);
   std::vector<double*> bufs(nbufs);
   for(int i=0;i<nbufs;i++){ bufs[i]=(double*)aligned_alloc(32,80*sizeof(double)); for(int k=0;k<80;k++) bufs[i][k]=0; }
